@@ -6,6 +6,7 @@ SELECT = (r'^bluetoe::server::(handle_find_information_request|handle_read_by_ty
           r'|^bluetoe::details::uuid_filter::|^bluetoe::details::attribute_access_arguments::|^bluetoe::details::generate_attribute::(access|char_declaration_access)$|characteristic_value_access$|^bluetoe::details::attribute_value_read\w*$')
 UNITS = lambda u: u in ('w_inst_att',) or u.startswith('t_att_find') or u.startswith('t_att_read_by') or u.startswith('t_filter')
 SV = 'bluetoe::server::'
+ALSO = [('C04', ('inverse-mapping-agrees',))]   # clauses of this property that another module's rules decide: run here as well
 META = {
     'level': 'structural necessary conditions of range filtering over the handle/index mapping: (1) every place that turns an *ending handle* into an attribute index steps back when the mapped index '
              'belongs to a larger handle and cannot wrap at index 0, or compares handles instead; (2) handles and attribute indices are never mixed in stores, initialisers and comparisons except through '
